@@ -864,7 +864,16 @@ func (fr *Frame) convert(n *vnode, i *ssa.Convert) *Val {
 				return &Val{T: BVBig(t.Val, w), Ty: i.Type()}
 			}
 			// exact: value modulo 2^w.  Uses int2bv on a symbolic term.
-			return &Val{T: Int2BV(t, w), Ty: i.Type()}
+			r := Int2BV(t, w)
+			if r.Op == "int2bv" {
+				// hint: inside the unsigned range the conversion is the identity (solvers are weak on int2bv)
+				rv := x.eng.FreshVar("i2bv", r.S)
+				x.vc.Assume(App("=", SBool, rv, r))
+				full := IntBig(new(big.Int).Lsh(big.NewInt(1), uint(w)))
+				x.vc.Assume(Implies(And(Ge(t, IntLit(0)), Lt(t, full)), Eq(App("bv2nat", SInt, rv), t)))
+				r = rv
+			}
+			return &Val{T: r, Ty: i.Type()}
 		case t.S.K == KBV && isUnsigned(to):
 			return &Val{T: BVResize(t, intWidth(to)), Ty: i.Type()}
 		case t.S.K == KBV && isSigned(to):
